@@ -56,6 +56,7 @@ type harness struct {
 	plines   []string  // implementation oracle lines (P ...)
 	limit    uint64
 	opsLine  string // (key, op) list of the flush call that has just started
+	havePrimary bool
 	handles  []int
 }
 
@@ -126,7 +127,21 @@ func newHarness(minKeys, minSize, force uint64) *harness {
 		}
 		h.enter <- call
 		o := <-h.release
-		eff := o.ok && !closedAtStart
+		// mirror of txn.go / handleSingleBatch: the primary is the first mutation that writes a lock; while there is none every
+		// batch is refused ("primary key should be set before pipelined flush")
+		noprim := false
+		if !closedAtStart && !h.havePrimary && len(call.muts) > 0 {
+			noprim = true
+			for _, op := range call.ops {
+				if op != 3 {
+					noprim = false
+				}
+			}
+			if !noprim {
+				h.havePrimary = true
+			}
+		}
+		eff := o.ok && !closedAtStart && !noprim
 		if eff {
 			for i, m := range call.muts {
 				if call.ops[i] != 3 { // CheckNotExists writes no lock
